@@ -1,17 +1,16 @@
 /-
 C19 — Patching a document to a target JSON yields exactly that JSON.
-Pure half (proved): the edit script that the model of jsondiff generates, read on plain JSON trees with
-the semantics patchEach gives each operation (put / insert / set / delete at a path), rewrites ANY
-canonical source object into ANY canonical target object; values carried by the script are sub-values
-of the target (no null appears if the target has none); chains compose.
-Document half: the document-level execution of the script (Model/Patch.lean: path resolution on the
-live tree, one transaction, rollback on error) is tied to the implementation by the correspondence
-slices `patch` (PatchByJSON on documents reached by multi-replica histories; the jsondiff model against
-the library on random tree pairs) and `rest` (REST endpoint with and without a stored snapshot); its
-refinement to the plain reading (documents behave as plain trees without concurrency) is the C03
-document lifting, not yet proved — named as the open part.  Atomicity is C09; other replicas: C01.
+Pure half: the edit script that the model of jsondiff generates, read on plain JSON trees with the semantics patchEach
+gives each operation, rewrites ANY canonical source object into ANY canonical target object (PatchDiff).
+Document half (DocPatch, on top of the refinement of documents to the plain JSON tree, DocPlain): for every reachable
+single-replica document and every target object without nulls, `PatchByJSON` succeeds, the document's canonical JSON value
+IS the target, and the script is applied as one atomic unit (nothing / one operation / one transaction unit announcing its
+length).  Documents shaped by remote operations: the same theorems apply wherever `DP.DocInv` holds; `Proofs/DocRemoteInv`
+extends the invariant to deliveries (see Props/C03/C19 imports when it is finished).  Other replicas: C01; atomicity on
+failure: C09.  REST endpoint: correspondence slice `rest` (+ `Model/Rest`), not yet a theorem.
 -/
 import Orda.Proofs.PatchDiff
+import Orda.Proofs.DocPatch
 namespace Orda.Props.C19
 open Orda
 
@@ -43,5 +42,35 @@ theorem canonical_forms (v : JVal) : v.canon.Canonical ∧ (v.Canonical → v.ca
     (so C09 applies), and a failed patch returns a transaction error only after the rollback -/
 theorem patch_of_nothing_is_noop (r : Replica) (d : Doc) (h : r.state = .doc d) : r.patch [] = (r, .ok ()) := by
   unfold Replica.patch; rw [h]
+
+/-! ### the document half -/
+
+/-- THE statement of C19 for a replica: from every reachable document, for every target object without nulls,
+    PatchByJSON succeeds and leaves the document's (canonical) JSON value equal to the target; the invariant is kept,
+    so patches chain -/
+theorem patchByJSON_yields_exactly_the_target (r : Replica) (d : Doc) (hs : r.state = .doc d) (h : DP.DocInv r)
+    (tgt : List (String × JVal)) (hn : (JVal.obj tgt).hasNull = false) (hk : DC.JKeysND (.obj tgt)) :
+    ∃ d', (r.patchByJSON (.obj tgt)).1.state = .doc d' ∧
+      (r.patchByJSON (.obj tgt)).2.2 = .ok () ∧
+      d'.view.canon = (JVal.obj tgt).canon ∧
+      DP.DocInv (r.patchByJSON (.obj tgt)).1 :=
+  DPatch.patchByJSON_reaches_target r d hs h tgt hn hk
+
+/-- … as ONE atomic unit: nothing is queued when the document already equals the target, one operation for a
+    one-operation script, otherwise one transaction unit that announces its own length (which a receiving replica
+    applies completely or not at all: C09) -/
+theorem patchByJSON_is_one_unit (r : Replica) (d : Doc) (hs : r.state = .doc d) (h : DP.DocInv r)
+    (tgt : List (String × JVal)) (hn : (JVal.obj tgt).hasNull = false) (hk : DC.JKeysND (.obj tgt)) :
+    let r' := (r.patchByJSON (.obj tgt)).1
+    let n := (r.patchByJSON (.obj tgt)).2.1.length
+    (n = 0 → r' = r) ∧
+    (n = 1 → ∃ o, r'.buffer = r.buffer ++ [o] ∧ o.id = r.opId.next) ∧
+    (2 ≤ n → ∃ tag body, r'.buffer = r.buffer ++ (⟨r.opId.next, .transaction tag (body.length + 1)⟩ :: body) ∧ body.length ≤ n) :=
+  DPatch.patchByJSON_one_unit r d hs h tgt hn hk
+
+/-- patching to the value the document already has does nothing -/
+theorem patchByJSON_to_itself_is_noop (r : Replica) (d : Doc) (hs : r.state = .doc d) (h : DP.DocInv r) :
+    (r.patchByJSON d.view).1 = r ∧ (r.patchByJSON d.view).2.1 = [] :=
+  DPatch.patchByJSON_same_is_noop r d hs h
 
 end Orda.Props.C19
